@@ -1555,6 +1555,11 @@ evhttp_connection_cb_cleanup(struct evhttp_connection *evcon)
 		return;
 	}
 
+	/* We gave up: a request made from now on (e.g. from one of the
+	 * callbacks below) has to start a new connection attempt instead of
+	 * waiting for a retry timer that is no longer pending. */
+	evcon->retry_cnt = 0;
+
 	/*
 	 * User callback can do evhttp_make_request() on the same
 	 * evcon so new request will be added to evcon->requests.  To
